@@ -230,7 +230,15 @@ impl Generator {
 
             // NextBuffer/ReadOnlyBuffer require out-of-band buffer support
             // allow only if explicitly enabled via with_buffer_opcodes()
-            NextBuffer | ReadOnlyBuffer => self.allow_buffer_opcodes,
+            NextBuffer => self.allow_buffer_opcodes,
+            // READONLY_BUFFER replaces the object on top of the stack, so there has to
+            // be one (and it must not be a MARK)
+            ReadOnlyBuffer => {
+                self.allow_buffer_opcodes
+                    && self
+                        .peek()
+                        .is_some_and(|obj| !matches!(*obj.borrow(), StackObject::Mark))
+            }
 
             // frame: handled specially after generation is complete
             Frame => false, // don't emit during generation, will be inserted at the end if needed
